@@ -16,7 +16,7 @@ RULE = ('cases = generated G-SEL spec with 1-3 design-variable nodes (continuous
         'a baseline value is set on the design-space graph before the processor is created (must not leak, must not '
         'change); non-trivial = a clamped value on a '
         'conditionally existing node; distinct by sha1(spec, encoder, vectors)')
-BUDGET = {'quick': 300, 'thorough': 20000}
+BUDGET = {'quick': 800, 'thorough': 20000}
 
 DISC_VALUES = [-5, -1, 0, 1, 2, 3, 4, 7, 0.5, 1.9, 2.49]
 CONT_OFFSETS = ['lo', 'hi', 'mid', 'lo-10', 'hi+10', 'lo+0.25', '-inf', '+inf']
